@@ -1089,7 +1089,7 @@ func (x *explorer) quiescent(s *State, ops []*VisOp) {
 }
 
 func (e *Engine) recordSample(s *State) {
-	if len(e.samples) >= 2 || e.replay != nil {
+	if len(e.samples) >= 2 || e.replay != nil || e.inInit {
 		return
 	}
 	r, m := e.solver.Check(s.pc.terms(), true)
@@ -1106,6 +1106,15 @@ func (e *Engine) recordSample(s *State) {
 	if len(ev) > 40 {
 		ev = append(ev[:40], fmt.Sprintf("... (%d more)", len(ev)-40))
 	}
+	var full []NondetRec
+	for _, n := range e.nondetOrder {
+		full = append(full, NondetRec{Name: n, Width: e.nondetVars[n], Value: m[n]})
+	}
+	var trail []TrailRec
+	for _, t := range s.trailList() {
+		trail = append(trail, TrailRec{Kind: t.kind, Choice: t.choice, Arity: t.arity, Info: t.info})
+	}
+	e.sampleCex = append(e.sampleCex, &CexFile{Harness: e.harness, Params: e.params, Nondet: full, Trail: trail})
 	e.samples = append(e.samples, map[string]interface{}{
 		"harness": e.harness, "path_condition_conjuncts": len(s.pc.terms()), "nondet_values": nd,
 		"schedule": ev, "instructions": s.steps,
